@@ -614,11 +614,14 @@ void World::doLoad(const Step &st, StepRecord &rec) {
         Rng r(seed);
         EncLayout L = gen_layout(r);
         EncContent C = gen_content(r);
+        if (C.frames == 0 && r.chance(1, 2)) L.label_delta = -1 - static_cast<int>(r.below(2)); // a frameless file that declares more points than it labels
         bytes = ref_encode(L, C);
     } else if (src.compare(0, 4, "lim:") == 0) {
         unsigned first = 1, frames = 0, points = 1;
-        std::sscanf(src.c_str() + 4, "%u:%u:%u", &first, &frames, &points);
+        int gdesc = -1;
+        std::sscanf(src.c_str() + 4, "%u:%u:%u:%d", &first, &frames, &points, &gdesc);
         EncLayout L; EncContent C;
+        L.force_group_desc = gdesc;
         L.first_frame = first; L.seed = first * 31 + frames;
         C.points = points; C.frames = frames; C.value_seed = first + 7;
         bytes = ref_encode(L, C);
@@ -885,7 +888,14 @@ void World::doParamEdit(const Step &st, StepRecord &rec) {
     size_t gi = static_cast<size_t>(st.i[0]) % cur.groups.size();
     if (cur.groups[gi].params.empty() || cur.groups[gi].name.empty()) { rec.skipped = true; return; }
     size_t pi = static_cast<size_t>(st.i[1]) % cur.groups[gi].params.size();
-    int kind = static_cast<int>(st.i[2]) % 4;
+    int kind = static_cast<int>(st.i[2]) % 5;
+    if (kind == 4 && st.i.size() > 3 && (st.i[3] & 1)) {
+        // prefer a BYTE parameter if the object holds one (only files bring them; they are rare among dozens of parameters)
+        for (size_t g = 0; g < cur.groups.size(); ++g)
+            for (size_t q = 0; q < cur.groups[g].params.size(); ++q)
+                if (cur.groups[g].params[q].type == 1 && !cur.groups[g].name.empty() && cur.groups[g].name != "POINT" && cur.groups[g].name != "ANALOG") { gi = g; pi = q; g = cur.groups.size() - 1; break; }
+    }
+    // kind 4: the copy gets NEW VALUES of another (or the same) type through set(), then goes back
     // kind 3: no copy at all - the object's own parameter is handed (by reference) to c3d::parameter for another group,
     // possibly one that does not exist yet, so that the group store grows while the argument lives inside it
     bool alias = kind == 3;
@@ -901,6 +911,26 @@ void World::doParamEdit(const Step &st, StepRecord &rec) {
     EParam p(obj->parameters().group(gi).parameter(pi)); // a copy
     if (kind == 0 || kind == 2) p.description(st.s[0]);
     if (kind == 1 || kind == 2) { if (p.isLocked()) p.unlock(); else p.lock(); }
+    if (kind == 4 && (cur.groups[gi].name == "POINT" || cur.groups[gi].name == "ANALOG")) { rec.skipped = true; return; } // rewriting the shape parameters by hand with other types: outside every premise
+    if (kind == 4) {
+        // whatever the parameter held (a BYTE array of a loaded file, strings, ...): after set() it is what was set
+        Rng vr(static_cast<uint64_t>(st.i.size() > 3 ? st.i[3] : 1) * 0x9e3779b97f4a7c15ull + 11);
+        unsigned nt = static_cast<unsigned>(vr.below(3));
+        size_t n = 1 + vr.below(5);
+        SnapParam want;
+        try {
+            if (nt == 0) { std::vector<int> v; for (size_t q = 0; q < n; ++q) v.push_back(static_cast<int>(vr.below(60000)) - 30000); p.set(v); want.type = 2; for (int x : v) want.ints.push_back(x); }
+            else if (nt == 1) { std::vector<float> v; for (size_t q = 0; q < n; ++q) v.push_back(bits2f(gen_float_bits(vr))); p.set(v); want.type = 4; for (float x : v) want.floats.push_back(f2bits(x)); }
+            else { std::vector<std::string> v; for (size_t q = 0; q < n; ++q) v.push_back("v" + tos(vr.below(1000))); p.set(v); want.type = -1; want.strs = v; }
+            SnapParam got = snap_param(p);
+            if (on(ORC_C09) && (got.type != want.type || got.ints != want.ints || got.floats != want.floats || got.strs != want.strs))
+                violate("C09", "set/copy-of-stored-parameter-not-as-set", "a copy of a stored parameter (type " + tos(cur.groups[gi].params[pi].type) + ") was given new values through set(): type / values are not the ones given");
+        } catch (...) {
+            if (on(ORC_C09)) violate("C09", "set/refused-consistent-shape/" + classify_current_exception(), "set() with a plain list of values was refused on a copy of a stored parameter");
+        }
+        probe("param.edit-reset-values");
+        if (cur.groups[gi].params[pi].type == 1) probe("param.edit-reset-values.of-a-byte-parameter");
+    }
     SnapParam handed = snap_param(p);
     Snapshot before = cur;
     std::vector<uint8_t> preImg;
@@ -1522,8 +1552,9 @@ void World::doReload(const Step &st, StepRecord &rec) {
     bool ok = loadFrom(sv.path, st.fault, rec, &what);
     res.st.reloads++;
     bool api = sv.writer_gen == 0;
-    const char *prop = api ? (on(ORC_C17) ? "C17" : "C01") : "C04";
-    bool enabled = api ? (on(ORC_C01) || on(ORC_C17)) : on(ORC_C04);
+    // (C17 also loads files that sit at a limit only a file can reach - last frame number, group descriptions - and saves them)
+    const char *prop = on(ORC_C17) ? "C17" : api ? "C01" : "C04";
+    bool enabled = on(ORC_C17) || (api ? on(ORC_C01) : on(ORC_C04));
     if (sv.premise_broken || !sv.complete) { enabled = false; probe("reload.premise-broken-or-incomplete"); }
     if (!ok) {
         // The budgets armed around every load belong to C16. When the data reader was stopped although it stayed within the
